@@ -42,7 +42,7 @@ pub struct External {
     pub path: u8,
 }
 
-pub const PATHS: [&str; 8] = [
+pub const PATHS: [&str; 10] = [
     "PriceLevel::from_snapshot(snapshot)",
     "PriceLevel::from(&snapshot)",
     "PriceLevelSnapshotPackage::new(snapshot) -> from_snapshot_package",
@@ -51,10 +51,12 @@ pub const PATHS: [&str; 8] = [
     "serde_json::from_str::<PriceLevel>(data JSON)",
     "PriceLevel::from_str(text)",
     "serde_json::from_str::<PriceLevelSnapshot>(snapshot JSON) -> from_snapshot",
+    "package sealed outside the library (SHA-256 over the snapshot's JSON as supplied) -> from_snapshot_package",
+    "JSON of a package sealed outside the library -> from_snapshot_json",
 ];
 
 fn external() -> BoxedStrategy<External> {
-    (book_spec(6), gen::boundary_u64(), gen::boundary_u64(), prop_oneof![gen::boundary_u64(), 0u64..10], 0u8..8)
+    (book_spec(6), gen::boundary_u64(), gen::boundary_u64(), prop_oneof![gen::boundary_u64(), 0u64..10], 0u8..10)
         .prop_map(|(book, vis, hid, count, path)| External { book, vis, hid, count, path })
         .boxed()
 }
@@ -114,15 +116,40 @@ pub fn eval_external(e: &External, st: &mut Stats) -> Result<(), String> {
                 );
                 PriceLevel::from_str(&t).map_err(|x| x.to_string())
             }
-            _ => {
+            7 => {
                 let j = serde_json::to_string(&snapshot).map_err(|x| x.to_string())?;
                 let s: PriceLevelSnapshot = serde_json::from_str(&j).map_err(|x| x.to_string())?;
                 PriceLevel::from_snapshot(s).map_err(|x| x.to_string())
             }
+            k => {
+                // a package written by another program: the figures as supplied, sealed with a
+                // checksum over exactly those bytes (the format is public: version, snapshot, checksum)
+                use sha2::{Digest, Sha256};
+                let payload = serde_json::to_vec(&snapshot).map_err(|x| x.to_string())?;
+                let version = PriceLevelSnapshotPackage::new(PriceLevelSnapshot::new(0)).map_err(|x| x.to_string())?.version;
+                let p = PriceLevelSnapshotPackage { version, snapshot: snapshot.clone(), checksum: format!("{:x}", Sha256::digest(&payload)) };
+                let r = if k == 8 {
+                    PriceLevel::from_snapshot_package(p)
+                } else {
+                    let j = serde_json::to_string(&p).map_err(|x| x.to_string())?;
+                    PriceLevel::from_snapshot_json(&j)
+                };
+                match r {
+                    Ok(l) => Ok(l),
+                    // (refusing such a package is another way of not believing it)
+                    Err(_) => return Err("REFUSED".into()),
+                }
+            }
         }
     })
     .map_err(|m| format!("{path} panicked: {m}"))?;
-    let level = built.map_err(|m| format!("{path} failed: {m}"))?;
+    let level = match built {
+        Err(m) if m == "REFUSED" => {
+            st.count("external/foreign_sealed_package_refused");
+            return Ok(());
+        }
+        other => other.map_err(|m| format!("{path} failed: {m}"))?,
+    };
     let mut got: Vec<OrderType<()>> = level.iter_orders().iter().map(|a| **a).collect();
     let mut want = orders.clone();
     got.sort_by_key(|o| o.id().to_string());
@@ -171,7 +198,7 @@ pub fn run(cfg: &RunCfg) -> Report {
     let mut rep = Report::new(
         "C10",
         "exploration",
-        "(a) stateful histories as C01 (so partially filled and replenished orders occur) with rebuilds of the level through its seven round-trip paths (from_snapshot, From<&Snapshot>, snapshot package, snapshot JSON, serde JSON, Display->FromStr, PriceLevelData->TryFrom) at random points and at the end: the rebuild must succeed with the same price, the same orders field for field as a set and the same aggregates; after every step of every history the listing shows each resting id once in non-decreasing timestamp order. (b) externally supplied snapshots / level data / level JSON / level text / snapshot JSON whose aggregate fields are perturbed (boundary values), through eight constructors: the built level's aggregates must equal the sums over its orders and PriceLevelSnapshotPackage::new must carry derived figures. Non-trivial = (a) a rebuild of a level holding a partially filled or replenished order, (b) an input whose aggregates disagree with its orders; distinct = hash of the case.",
+        "(a) stateful histories as C01 (so partially filled and replenished orders occur) with rebuilds of the level through its seven round-trip paths (from_snapshot, From<&Snapshot>, snapshot package, snapshot JSON, serde JSON, Display->FromStr, PriceLevelData->TryFrom) at random points and at the end: the rebuild must succeed with the same price, the same orders field for field as a set and the same aggregates; after every step of every history the listing shows each resting id once in non-decreasing timestamp order. (b) externally supplied snapshots / level data / level JSON / level text / snapshot JSON whose aggregate fields are perturbed (boundary values), through ten constructors (incl. a package sealed outside the library with a checksum over the perturbed figures): the built level's aggregates must equal the sums over its orders and PriceLevelSnapshotPackage::new must carry derived figures. Non-trivial = (a) a rebuild of a level holding a partially filled or replenished order, (b) an input whose aggregates disagree with its orders; distinct = hash of the case.",
     );
     rep.assumptions = vec!["external inputs have distinct order ids and order.price == level price (DESIGN §8)".into()];
     let tier = cfg.tier;
